@@ -108,7 +108,12 @@ func genC18(r *R, n int, tier string, out *Out) {
 		// never look at the tail)
 		if len(elems) >= 40 && (i < 10 || r.chance(0.6)) {
 			k := len(elems) - 1 - r.Intn(3)
-			switch r.Intn(4) {
+			choice := r.Intn(4)
+			if i < 10 { // the guaranteed large lists: the strict minimum (even i) or maximum (odd i) is the very last element
+				k = len(elems) - 1
+				choice = i % 2
+			}
+			switch choice {
 			case 0:
 				elems[k] = vfloat(-1e300)
 			case 1:
